@@ -82,6 +82,11 @@ def run(ctx: Context) -> None:
             alts = ctx.prov.expand(c.args[1], s2, c, depth=1) if len(c.args) > 1 else []
             ok = False
             detail = "header block not located"
+            if len(alts) == 1 and isinstance(alts[0], ast.BinOp) and isinstance(alts[0].left, ast.Name):
+                # the pseudo-header list bound to a name of its own
+                la = ctx.prov.expand(alts[0].left, s2, c, depth=1)
+                if len(la) == 1 and isinstance(la[0], ast.List):
+                    alts = [ast.BinOp(left=la[0], op=alts[0].op, right=alts[0].right)]
             if len(alts) == 1 and isinstance(alts[0], ast.BinOp) and isinstance(alts[0].left, ast.List) and isinstance(alts[0].right, ast.ListComp):
                 pseudo = [norm(e) for e in alts[0].left.elts]
                 lc = alts[0].right
@@ -95,7 +100,7 @@ def run(ctx: Context) -> None:
                 detail = f"pseudo={pseudo} rest={norm(lc.elt)} for {norm(g.target)} in {norm(g.iter)} excluding {sorted(excl)}"
             rep.ob("C03.R3", fkey(tree, s2, "header-block"), ok, where(s2, c), detail)
             auth = [norm(a) for a in ctx.prov.expand(ast.Name(id="authority", ctx=ast.Load()), s2, c, depth=2)]
-            rep.ob("C03.R3", fkey(tree, s2, "authority"), bool(auth) and all("request.headers" in a and "b'host'" in a and a.endswith("[0]") for a in auth), where(s2, c), f":authority <- {auth}")
+            rep.ob("C03.R3", fkey(tree, s2, "authority"), bool(auth) and all("request.headers" in a and "b'host'" in a and (a.endswith("[0]") or (a.startswith("next(") and a.endswith(",None)"))) for a in auth), where(s2, c), f":authority <- {auth}")
             rep.ob("C03.R3", fkey(tree, s2, "stream-id"), norm(c.args[0]) == "stream_id", where(s2, c), "headers are sent on the routine's stream id")
             es = [norm(k.value) for k in c.keywords if k.arg == "end_stream"]
             esrc = [norm(a) for k in c.keywords if k.arg == "end_stream" for a in ctx.prov.expand(k.value, s2, c)]
